@@ -3,26 +3,26 @@
 HEAD = 'from harness import C21_retry as H\n'
 
 SWEEP = '''
-def sweep{T}(kind: int, p: int, s: int, depth: int, jsel: int) -> bool:
+def sweep{T}_{LO}_{HI}(kind: int, p: int, s: int, depth: int) -> bool:
     """
-    pre: 0 <= kind < {K} and -2 <= p <= 100000 and 0 <= s < {MAXS} and 0 <= depth <= 2 and 0 <= jsel <= 2
+    pre: {LO} <= kind < {HI} and -2 <= p <= 100000 and 0 <= s < {MAXS} and 0 <= depth <= 2
     post: _
     """
-    return H.sweep({T}, kind, p, s, depth, jsel) == ''
+    return H.sweep({T}, kind, p, s, depth, {JSEL}) == ''
 '''
 
 TWIN = '''
-def sweep{T}_reach_{WHAT}(kind: int, p: int, s: int, depth: int, jsel: int) -> bool:
+def sweep{T}_reach_{WHAT}(kind: int, p: int, s: int, depth: int) -> bool:
     """
-    pre: 0 <= kind < {K} and -2 <= p <= 100000 and 0 <= s < {MAXS} and 0 <= depth <= 2 and 0 <= jsel <= 2
+    pre: 0 <= kind < {K} and -2 <= p <= 100000 and 0 <= s < {MAXS} and 0 <= depth <= 2
     post: _
     """
     # reachability twin: must be REFUTED (failure {T} can be {WHAT})
-    return H.drive(H.sweep_excs({T}, kind, p, s, depth), H.jitter_list(jsel, {T}))[0] != '{WHAT}'
+    return H.drive(H.sweep_excs({T}, kind, p, s, depth), H.jitter_list({JSEL}, {T}))[0] != '{WHAT}'
 '''
 
 SEQ = '''
-def seq{N}_{K1}({KARGS}{SEP}jsel: int) -> bool:
+def seq{N}_{TAG}({KARGS}{SEP}jsel: int) -> bool:
     """
     pre: {KPRE}
     pre: 0 <= jsel <= 2
@@ -31,29 +31,34 @@ def seq{N}_{K1}({KARGS}{SEP}jsel: int) -> bool:
     return H.seq({N}, [{KLIST}], jsel) == ''
 
 
-def seq{N}_{K1}_reach({KARGS}{SEP}jsel: int) -> bool:
+def seq{N}_{TAG}_reach({KARGS}{SEP}jsel: int) -> bool:
     """
     pre: {KPRE}
     pre: 0 <= jsel <= 2
     post: _
     """
-    # reachability twin: must be REFUTED (some sequence of {N} failures starting with this kind ends the way the
-    # oracle's last case does: all retried -> 'ok', or, when the first kind is permanent, 'raised')
+    # reachability twin: must be REFUTED (some sequence of {N} failures with this fixed prefix ends the way the
+    # oracle's last case does: all retried -> 'ok', or, when the prefix holds a permanent kind, 'raised')
     return H.drive(H.seq_excs({N}, [{KLIST}]), H.jitter_list(jsel, {N}))[0] != '{WHAT}'
 '''
 
 
-def source(ts, seqs, K, MAXS, NREPS):
-    """seqs: list of (n, first_kind, twin_outcome)"""
+def seq_tag(prefix):
+    return '_'.join(str(k) for k in prefix)
+
+
+def source(sweeps, seqs, K, MAXS, NREPS):
+    """sweeps: list of (t, lo, hi) kind ranges; seqs: list of (n, fixed_prefix_kinds, twin_outcome)"""
     out = [HEAD]
-    for t in ts:
-        kw = dict(T=t, K=K, MAXS=MAXS)
-        out.append(SWEEP.format(**kw))
+    for t in sorted({t for t, _, _ in sweeps}):
         for what in ('ok', 'raised'):
-            out.append(TWIN.format(WHAT=what, **kw))
-    for n, k1, what in seqs:
-        kn = [f'k{i}' for i in range(2, n + 1)]
-        out.append(SEQ.format(N=n, K1=k1, KARGS=', '.join(f'{k}: int' for k in kn), SEP=', ' if kn else '',
+            out.append(TWIN.format(WHAT=what, T=t, K=K, MAXS=MAXS, JSEL=t % 3))
+    for t, lo, hi in sweeps:
+        out.append(SWEEP.format(T=t, LO=lo, HI=hi, MAXS=MAXS, JSEL=t % 3))
+    for n, prefix, what in seqs:
+        kn = [f'k{i}' for i in range(len(prefix) + 1, n + 1)]
+        out.append(SEQ.format(N=n, TAG=seq_tag(prefix), KARGS=', '.join(f'{k}: int' for k in kn),
+                              SEP=', ' if kn else '',
                               KPRE=' and '.join(f'0 <= {k} < {NREPS}' for k in kn) or 'True',
-                              KLIST=', '.join([str(k1)] + kn), WHAT=what))
+                              KLIST=', '.join([str(k) for k in prefix] + kn), WHAT=what))
     return '\n'.join(out)
